@@ -39,10 +39,20 @@ def generate_cases(P, ctx):
         for c in extra:
             c.setdefault("src", "rand")
         cases += extra
+    n_rand = len(cases) - n_tlc
+    if P.get("corpus"):
+        # the byte strings the authors of the repository's tests chose (harness corpus, from the current working tree)
+        cp = os.path.join(ctx["work"], "corpus.ndjson")
+        core.sh([ctx["harness"], "corpus", core.REPO, cp], timeout=300)
+        extra = P["corpus"](core.read_ndjson(cp), ctx["tier"])
+        for c in extra:
+            c.setdefault("src", "corpus")
+            c["origin"] = "corpus"
+        cases += extra
     for i, c in enumerate(cases):
         c["case"] = i + 1
         c.setdefault("src", "tlc")
-    ctx["n_tlc_cases"], ctx["n_rand_cases"] = n_tlc, len(cases) - n_tlc
+    ctx["n_tlc_cases"], ctx["n_rand_cases"], ctx["n_corpus_cases"] = n_tlc, n_rand, len(cases) - n_tlc - n_rand
     return cases
 
 
@@ -232,7 +242,7 @@ def run_property(P, tier, seed, replay=None):
                    evaluations=len(cases), distinct_nontrivial=len(nontriv), rule=P.get("rule", ""),
                    samples=samples, exhaustive=bool(P.get("exhaustive", False)),
                    trace_events=jr.get("events", 0), classes=classes, tlc_runs=ctx["tlc_runs"],
-                   cases_from_tlc=ctx.get("n_tlc_cases", 0), cases_random=ctx.get("n_rand_cases", 0),
+                   cases_from_tlc=ctx.get("n_tlc_cases", 0), cases_random=ctx.get("n_rand_cases", 0), cases_from_repository_tests=ctx.get("n_corpus_cases", 0),
                    rejected_cases=len({c for c, _, _ in confirmed}),
                    known_findings={s: n for s, (k, n) in findings.items()},
                    checker_cmd="tlc (tla2tools 1.8.0) " + "; ".join(r["cmd"] for r in ctx["tlc_runs"][:3]))
